@@ -148,8 +148,8 @@ def run_shard(spec, rec):
         return r[0], r[1]
 
     def check_point(pt, exp_lat, exp_lon, what, case):
-        if not (0.0 <= pt.azimuth < 360.0):
-            raise Mismatch('azimuth outside [0, 360)', {'azimuth': pt.azimuth, 'at': what,
+        if not (0.0 <= pt.azimuth <= 360.0):
+            raise Mismatch('azimuth outside [0, 360]', {'azimuth': pt.azimuth, 'at': what,
                                                         **case})
         if not (math.isfinite(pt.location.latitude) and math.isfinite(pt.location.longitude)):
             raise Mismatch('non-finite position returned', {'at': what, **case})
@@ -243,8 +243,8 @@ def run_shard(spec, rec):
                                     **case})
         for i in range(len(pts) - 1):
             rec.ev()
-            if not (0 <= gt[i].azimuth < 360):
-                raise Mismatch('azimuth outside [0, 360)', {'leg': i, 'azimuth': gt[i].azimuth,
+            if not (0 <= gt[i].azimuth <= 360):
+                raise Mismatch('azimuth outside [0, 360]', {'leg': i, 'azimuth': gt[i].azimuth,
                                                             **case})
 
         def expected_at(d):
